@@ -116,9 +116,10 @@ def Expr.opsInScope : Expr → Bool
   | .cmp op l r => l.opsInScope && r.opsInScope && (op = .lt || op = .lte || op = .gt || op = .gte || op = .eq || op = .noteq)
   | _ => true
 
-/-- no `+ - * / %` on a boolean operand (those are refused with an assertion, theorem `bool_refused`) -/
+/-- no binary arithmetic on a boolean operand (`+ - * / %` on one are refused with an assertion, theorem
+`bool_refused`; `**` on one is accepted today, but a refusal there would be tolerated alike) -/
 def Expr.noBoolArith : Expr → Bool
-  | .bin op l r => l.noBoolArith && r.noBoolArith && (op = .pow || !(l.boolish || r.boolish))
+  | .bin _ l r => l.noBoolArith && r.noBoolArith && !(l.boolish || r.boolish)
   | .un _ e => e.noBoolArith
   | .cmp _ l r => l.noBoolArith && r.noBoolArith
   | _ => true
